@@ -131,7 +131,9 @@ namespace options
 
                 if (!env_value.empty())
                 {
-                    update_value(env_value);
+                    // the environment provides a value, not a command line token
+                    dirty_ = true;
+                    value_ = env_value;
 
                     return;
                 }
